@@ -498,7 +498,7 @@ const char* STUB0506 = "disk (VFS behind fopencookie; the read chunk is a random
 
 } // namespace
 
-REGISTER_SCENARIO(c05_roundtrip, "C05", "json_roundtrip", genRoundTrip, runRoundTrip, 80000, 4000000, {1}, 0, 2000000, 300.0,
+REGISTER_SCENARIO(c05_roundtrip, "C05", "json_roundtrip", genRoundTrip, runRoundTrip, 200000, 12000000, {1}, 0, 2000000, 300.0,
                   "non-trivial: the file leg read a file larger than the read chunk (a chunk boundary falls inside the document) or a file of <= 3 bytes, or a disk fault fired; distinct by plan hash x (file size, chunk)", REAL0506, STUB0506,
                   false);
 REGISTER_SCENARIO(c06_stream, "C06", "json_stream", genStream, runStream, 30000, 3000000, {1}, 0, 2000000, 300.0,
